@@ -298,7 +298,13 @@ impl<R: Round, const B: Word> FBig<R, B> {
         // if self.context.precision is zero, then precision is also zero
         let precision =
             Repr::<B>::BASE.pow(self.context.precision).log2_bounds().0 / NewB.log2_bounds().1;
-        self.with_base_and_precision(precision as usize)
+        // a limited precision of a few small digits must not become 0 (which means unlimited)
+        let precision = if self.context.precision > 0 {
+            (precision as usize).max(1)
+        } else {
+            0
+        };
+        self.with_base_and_precision(precision)
     }
 
     /// Explicitly change the base of the float number with given precision (under the new base).
